@@ -177,18 +177,34 @@ Proof.
   rewrite <- Permutation_middle. reflexivity.
 Qed.
 
+Lemma take_conserves e w v q q' t :
+  nth_error (eqs e) v = Some q -> Permutation (qtasks q) (t :: qtasks q') -> worker_free e w = true ->
+  Permutation (all_tasks (set_run (set_q e v q') w (Some t))) (all_tasks e).
+Proof.
+  intros Hq Hp Hf.
+  unfold all_tasks, queued, running, set_run, set_q; cbn [eqs eglob erun edone].
+  apply move_to_run with (t := t).
+  - eapply set_nth_flat_cons; eassumption.
+  - apply cat_some_set_some. apply worker_free_spec; assumption.
+Qed.
+
 Lemma wstep_conserves fixed e s :
   match s with Submit _ => True | _ => Permutation (all_tasks (wstep fixed e s)) (all_tasks e) end.
 Proof.
-  destruct s as [t|w|w|w v|w|w]; [exact I| | | | |]; cbn [wstep].
+  destruct s as [t| |w|w|w|w v|w v|w v|w|w]; [exact I| | | | | | | | |]; cbn [wstep].
+  - (* SubmitRace *) reflexivity.
   - (* PopLocal *)
     destruct (worker_free e w) eqn:Hf; [|reflexivity].
     destruct (nth_error (eqs e) w) as [q|] eqn:Hq; [|reflexivity].
     destruct (pop_local fixed q) as [[t|] q'] eqn:Hp; [|reflexivity].
-    unfold all_tasks, queued, running, set_run, set_q; cbn [eqs eglob erun edone].
-    apply move_to_run with (t := t).
-    + eapply set_nth_flat_cons; [eassumption|]. eapply pop_local_some; eassumption.
-    + apply cat_some_set_some. apply worker_free_spec; assumption.
+    eapply take_conserves; [eassumption| |assumption]. eapply pop_local_some; eassumption.
+  - (* PopOwnSteal *)
+    destruct (fixed && worker_free e w) eqn:Hf; [|reflexivity].
+    apply andb_prop in Hf. destruct Hf as [_ Hf].
+    destruct (nth_error (eqs e) w) as [q|] eqn:Hq; [|reflexivity].
+    destruct (qsteal q) as [|t r] eqn:Hs; [reflexivity|].
+    eapply take_conserves; [eassumption| |assumption].
+    unfold qtasks; cbn [qlocal qsteal]. rewrite Hs. symmetry. apply Permutation_middle.
   - (* PopGlobal *)
     destruct (worker_free e w) eqn:Hf; [|reflexivity].
     destruct (eglob e) as [|t r] eqn:Hg; [reflexivity|].
@@ -200,10 +216,22 @@ Proof.
     apply andb_prop in Hf. destruct Hf as [Hf _].
     destruct (nth_error (eqs e) v) as [q|] eqn:Hq; [|reflexivity].
     destruct (steal q) as [[t|] q'] eqn:Hp; [|reflexivity].
-    unfold all_tasks, queued, running, set_run, set_q; cbn [eqs eglob erun edone].
-    apply move_to_run with (t := t).
-    + eapply set_nth_flat_cons; [eassumption|]. eapply steal_some; eassumption.
-    + apply cat_some_set_some. apply worker_free_spec; assumption.
+    eapply take_conserves; [eassumption| |assumption]. eapply steal_some; eassumption.
+  - (* StealQ *)
+    destruct (worker_free e w && negb (Nat.eqb w v)) eqn:Hf; [|reflexivity].
+    apply andb_prop in Hf. destruct Hf as [Hf _].
+    destruct (nth_error (eqs e) v) as [q|] eqn:Hq; [|reflexivity].
+    destruct (qsteal q) as [|t r] eqn:Hs; [reflexivity|].
+    eapply take_conserves; [eassumption| |assumption].
+    unfold qtasks; cbn [qlocal qsteal]. rewrite Hs. symmetry. apply Permutation_middle.
+  - (* StealL *)
+    destruct (worker_free e w && negb (Nat.eqb w v)) eqn:Hf; [|reflexivity].
+    apply andb_prop in Hf. destruct Hf as [Hf _].
+    destruct (nth_error (eqs e) v) as [q|] eqn:Hq; [|reflexivity].
+    destruct (1 <? nlen (qlocal q)); [|reflexivity].
+    destruct (remove_last_stealable (qlocal q)) as [[t l']|] eqn:Hr; [|reflexivity].
+    eapply take_conserves; [eassumption| |assumption].
+    unfold qtasks; cbn [qlocal qsteal]. rewrite (rls_perm _ _ _ Hr). reflexivity.
   - (* Balance *)
     destruct (nth_error (eqs e) w) as [q|] eqn:Hq; [|reflexivity].
     unfold all_tasks, queued, running, set_q; cbn [eqs eglob erun edone].
@@ -248,24 +276,17 @@ Lemma run_conserves fixed cap steps : forall e acc e' acc',
 Proof.
   induction steps as [|s r IH]; intros e acc e' acc' H; cbn [run] in H.
   - inversion H; subst. exists []. rewrite !app_nil_r. split; reflexivity.
-  - destruct s as [t|w|w|w v|w|w].
-    + destruct (submit cap e t) as [ok e1] eqn:Hs.
-      apply IH in H. destruct H as [added [Ha Hp]].
-      apply submit_conserves in Hs.
-      destruct ok.
-      * exists (t :: added). split; [rewrite Ha, <- app_assoc; reflexivity|].
-        rewrite Hp, Hs. cbn [app]. rewrite <- Permutation_middle. reflexivity.
-      * exists added. split; [assumption|]. rewrite Hp, Hs. reflexivity.
-    + apply IH in H. destruct H as [added [Ha Hp]]. exists added; split; [assumption|].
-      rewrite Hp. apply Permutation_app_tail. exact (wstep_conserves fixed e (PopLocal w)).
-    + apply IH in H. destruct H as [added [Ha Hp]]. exists added; split; [assumption|].
-      rewrite Hp. apply Permutation_app_tail. exact (wstep_conserves fixed e (PopGlobal w)).
-    + apply IH in H. destruct H as [added [Ha Hp]]. exists added; split; [assumption|].
-      rewrite Hp. apply Permutation_app_tail. exact (wstep_conserves fixed e (StealFrom w v)).
-    + apply IH in H. destruct H as [added [Ha Hp]]. exists added; split; [assumption|].
-      rewrite Hp. apply Permutation_app_tail. exact (wstep_conserves fixed e (Balance w)).
-    + apply IH in H. destruct H as [added [Ha Hp]]. exists added; split; [assumption|].
-      rewrite Hp. apply Permutation_app_tail. exact (wstep_conserves fixed e (Finish w)).
+  - destruct s as [t| |w|w|w|w v|w v|w v|w|w];
+      try (apply IH in H; destruct H as [added [Ha Hp]]; exists added; split; [assumption|];
+           rewrite Hp; apply Permutation_app_tail;
+           match goal with |- Permutation (all_tasks (wstep _ _ ?s)) _ => exact (wstep_conserves fixed e s) end).
+    destruct (submit cap e t) as [ok e1] eqn:Hs.
+    apply IH in H. destruct H as [added [Ha Hp]].
+    apply submit_conserves in Hs.
+    destruct ok.
+    + exists (t :: added). split; [rewrite Ha, <- app_assoc; reflexivity|].
+      rewrite Hp, Hs. cbn [app]. rewrite <- Permutation_middle. reflexivity.
+    + exists added. split; [assumption|]. rewrite Hp, Hs. reflexivity.
 Qed.
 
 Lemma flat_map_repeat_nil {A B} (f : A -> list B) x n : f x = [] -> flat_map f (repeat x n) = [].
